@@ -7,24 +7,26 @@ From QV Require Import Sem Mat2 Toff2 Chain Vchain Cvoqram SumQ.
 Import ListNotations.
 Open Scope nat_scope.
 
-Inductive atree := ALeaf | ANode (q : nat) (ay az : R) (l r : atree).
-Fixpoint qubits (t : atree) : list nat := match t with ALeaf => [] | ANode q _ _ l r => q :: qubits l ++ qubits r end.
-Fixpoint chain (t : atree) : list nat := match t with ALeaf => [] | ANode q _ _ l _ => q :: chain l end.
-Fixpoint rest (t : atree) : list nat := match t with ALeaf => [] | ANode _ _ _ l r => rest l ++ qubits r end.
-Fixpoint balanced (d : nat) (t : atree) : Prop :=
-  match d, t with
-  | O, ALeaf => True
-  | S d', ANode _ _ _ l r => balanced d' l /\ balanced d' r
-  | _, _ => False
+Inductive dgate := DRY (th : R) (q : nat) | DRZ (th : R) (q : nat) | DCSWAP (c a b : nat) | DEnt (e : ent) (c t : nat).
+(* ASub qs c : a sub-register qs prepared from |0..0> by the circuit c (the top-down sub-circuits of the bidirectional variant) *)
+Inductive atree := ALeaf | ANode (q : nat) (ay az : R) (l r : atree) | ASub (qs : list nat) (c : list dgate).
+Fixpoint qubits (t : atree) : list nat := match t with ALeaf => [] | ANode q _ _ l r => q :: qubits l ++ qubits r | ASub qs _ => qs end.
+Fixpoint chain (t : atree) : list nat := match t with ALeaf => [] | ANode q _ _ l _ => q :: chain l | ASub qs _ => qs end.
+Fixpoint rest (t : atree) : list nat := match t with ALeaf => [] | ANode _ _ _ l r => rest l ++ qubits r | ASub _ _ => [] end.
+Fixpoint balanced (d : nat) (t : atree) {struct t} : Prop :=
+  match t with
+  | ALeaf => d = 0
+  | ANode _ _ _ l r => match d with O => False | S d' => balanced d' l /\ balanced d' r end
+  | ASub qs _ => length qs = d
   end.
 
-Inductive dgate := DRY (th : R) (q : nat) | DRZ (th : R) (q : nat) | DCSWAP (c a b : nat).
 Definition cswapq (c a b : nat) (x : asg) : asg := if get x c then swapq a b x else x.
 Definition dapp (g : dgate) (psi : state) : state :=
   match g with
   | DRY th q => app1 (RYm th) q psi
   | DRZ th q => app1 (RZm th) q psi
   | DCSWAP c a b => fun x => psi (cswapq c a b x)
+  | DEnt e c t => fun b => if get b c then app1 (Em e) t psi b else psi b
   end.
 Definition drun (c : list dgate) (psi : state) : state := fold_left (fun s g => dapp g s) c psi.
 Lemma drun_app c1 c2 psi : drun (c1 ++ c2) psi = drun c2 (drun c1 psi).
@@ -35,11 +37,33 @@ Definition pairs (l r : atree) : list (nat * nat) := combine (chain l) (chain r)
 Definition cswaps (q : nat) (l r : atree) : list dgate := map (fun p => DCSWAP q (fst p) (snd p)) (pairs l r).
 Fixpoint bottom_up (t : atree) : list dgate :=
   match t with
-  | ALeaf => []
   | ANode q ay az l r =>
       (if rz0 ay then [] else [DRY ay q]) ++ (if rz0 az then [] else [DRZ az q])
       ++ bottom_up l ++ bottom_up r ++ (if rz0 ay then [] else cswaps q l r)
+  | _ => []
   end.
+(* the sub-circuits, in tree order (tree_walk.top_down emits them first) *)
+Fixpoint subs (t : atree) : list dgate :=
+  match t with ALeaf => [] | ANode _ _ _ l r => subs l ++ subs r | ASub _ c => c end.
+Definition bdsp_gates (t : atree) : list dgate := subs t ++ bottom_up t.
+
+(* ---------- zero indicators ---------- *)
+Definition Zq (qs : list nat) (x : asg) : C := if forallb (fun q => negb (get x q)) qs then RtoC 1 else RtoC 0.
+Lemma Zq_nil x : Zq [] x = RtoC 1. Proof. reflexivity. Qed.
+Lemma Zq_cons q qs x : Zq (q :: qs) x = (Zq [q] x * Zq qs x)%C.
+Proof. unfold Zq. simpl. destruct (get x q); simpl; [|destruct (forallb _ qs)]; ring. Qed.
+Lemma Zq_app l1 l2 x : Zq (l1 ++ l2) x = (Zq l1 x * Zq l2 x)%C.
+Proof.
+  unfold Zq. rewrite forallb_app. destruct (forallb _ l1); destruct (forallb _ l2); simpl; ring.
+Qed.
+Lemma Zq_indep qs p : ~ In p qs -> indepq p (Zq qs).
+Proof.
+  intros Hp b v. unfold Zq.
+  assert (E : forallb (fun q => negb (get (upd b p v) q)) qs = forallb (fun q => negb (get b q)) qs).
+  { induction qs as [|a r IH]; auto. simpl. rewrite get_upd_other by (intro E; apply Hp; left; auto).
+    f_equal. apply IH. intro I. apply Hp. now right. }
+  now rewrite E.
+Qed.
 
 (* ---------- denotation ---------- *)
 Definition phi (ay az : R) (v : bool) : C := mget (mmul (RZm az) (RYm ay)) v false.
@@ -50,7 +74,15 @@ Fixpoint F (t : atree) (x : asg) : C :=
   match t with
   | ALeaf => RtoC 1
   | ANode q ay az l r => (phi ay az (get (sig q ay l r x) q) * F l (sig q ay l r x) * F r (sig q ay l r x))%C
+  | ASub qs c => drun c (Zq qs) x
   end.
+
+(* ---------- local circuits ---------- *)
+Definition gq (g : dgate) : list nat :=
+  match g with DRY _ q | DRZ _ q => [q] | DCSWAP c a b => [c; a; b] | DEnt _ c t => [c; t] end.
+Definition glocal (qs : list nat) (g : dgate) : Prop := forall p, In p (gq g) -> In p qs.
+Fixpoint wfsub (t : atree) : Prop :=
+  match t with ALeaf => True | ANode _ _ _ l r => wfsub l /\ wfsub r | ASub qs c => Forall (glocal qs) c end.
 
 (* ---------- bit-level facts about the swaps ---------- *)
 Lemma swapq_same a x : swapq a a x = x.
@@ -70,7 +102,7 @@ Lemma in_pairs_snd l r pr : In pr (pairs l r) -> In (snd pr) (chain r).
 Proof. destruct pr as [a c]. intros H. now apply in_combine_r in H. Qed.
 Lemma chain_sub t p : In p (chain t) -> In p (qubits t).
 Proof.
-  induction t as [|q ay az l IHl r IHr]; simpl; auto. intros [H|H]; auto. right. apply in_or_app. left. auto.
+  induction t as [|q ay az l IHl r IHr|qs c]; simpl; auto. intros [H|H]; auto. right. apply in_or_app. left. auto.
 Qed.
 
 Lemma get_sig_other q ay l r x p : ~ In p (chain l) -> ~ In p (chain r) -> get (sig q ay l r x) p = get x p.
@@ -97,16 +129,49 @@ Proof.
   - apply Hr. eapply in_pairs_snd; eauto.
 Qed.
 
-(* F t only reads the qubits of t *)
-Lemma F_indep t : forall p, ~ In p (qubits t) -> indepq p (F t).
+(* local gates leave alone what does not depend on their qubits *)
+Lemma cswapq_get_other c a b x p : p <> a -> p <> b -> get (cswapq c a b x) p = get x p.
+Proof. intros Ha Hb. unfold cswapq. destruct (get x c); auto. now apply get_swapq_other. Qed.
+Lemma cswapq_upd_other c a b x p v : p <> c -> p <> a -> p <> b -> cswapq c a b (upd x p v) = upd (cswapq c a b x) p v.
 Proof.
-  induction t as [|q ay az l IHl r IHr]; intros p Hp b v. reflexivity.
-  cbn [qubits] in Hp. cbn [F].
-  assert (Hq : p <> q) by (intro E; apply Hp; left; auto).
-  assert (Hl : ~ In p (qubits l)) by (intro I; apply Hp; right; apply in_or_app; now left).
-  assert (Hr : ~ In p (qubits r)) by (intro I; apply Hp; right; apply in_or_app; now right).
-  rewrite sig_upd_other by (auto; intro I; first [apply Hl; now apply chain_sub | apply Hr; now apply chain_sub]).
-  rewrite get_upd_other by auto. rewrite (IHl p Hl), (IHr p Hr). reflexivity.
+  intros Hc Ha Hb. unfold cswapq. rewrite get_upd_other by auto. destruct (get x c); auto. now apply swapq_upd_other.
+Qed.
+Lemma dapp_indep g (al : state) p : ~ In p (gq g) -> indepq p al -> indepq p (dapp g al).
+Proof.
+  intros Hp Ha b v. destruct g as [th q|th q|c a b'|e c t]; cbn [gq dapp] in *.
+  - assert (q <> p) by (intro E; apply Hp; subst; simpl; auto).
+    unfold app1. rewrite get_upd_other by auto. rewrite !(upd_comm b p v q) by auto. now rewrite !Ha.
+  - assert (q <> p) by (intro E; apply Hp; subst; simpl; auto).
+    unfold app1. rewrite get_upd_other by auto. rewrite !(upd_comm b p v q) by auto. now rewrite !Ha.
+  - assert (p <> c) by (intro E; apply Hp; subst; simpl; auto).
+    assert (p <> a) by (intro E; apply Hp; subst; simpl; auto).
+    assert (p <> b') by (intro E; apply Hp; subst; simpl; auto).
+    rewrite cswapq_upd_other by auto. apply Ha.
+  - assert (c <> p) by (intro E; apply Hp; subst; simpl; auto).
+    assert (t <> p) by (intro E; apply Hp; subst; simpl; auto).
+    rewrite get_upd_other by auto.
+    unfold app1. rewrite get_upd_other by auto. rewrite !(upd_comm b p v t) by auto. now rewrite !Ha.
+Qed.
+Lemma drun_indep c (al : state) p : (forall g, In g c -> ~ In p (gq g)) -> indepq p al -> indepq p (drun c al).
+Proof.
+  revert al. induction c as [|g c IH]; intros al H Ha. exact Ha.
+  cbn [drun fold_left]. change (fold_left (fun s g => dapp g s) ?l ?s) with (drun l s).
+  apply IH. intros g' Hg'. apply H. now right. apply dapp_indep; auto. apply H. now left.
+Qed.
+
+(* F t only reads the qubits of t *)
+Lemma F_indep t : wfsub t -> forall p, ~ In p (qubits t) -> indepq p (F t).
+Proof.
+  induction t as [|q ay az l IHl r IHr|qs c]; intros W p Hp b v. reflexivity.
+  - destruct W as [Wl Wr]. cbn [qubits] in Hp. cbn [F].
+    assert (Hq : p <> q) by (intro E; apply Hp; left; auto).
+    assert (Hl : ~ In p (qubits l)) by (intro I; apply Hp; right; apply in_or_app; now left).
+    assert (Hr : ~ In p (qubits r)) by (intro I; apply Hp; right; apply in_or_app; now right).
+    rewrite sig_upd_other by (auto; intro I; first [apply Hl; now apply chain_sub | apply Hr; now apply chain_sub]).
+    rewrite get_upd_other by auto. rewrite (IHl Wl p Hl), (IHr Wr p Hr). reflexivity.
+  - cbn [F qubits] in *. apply drun_indep.
+    + intros g Hg I. apply Hp. simpl in W. rewrite Forall_forall in W. now apply (W g Hg).
+    + now apply Zq_indep.
 Qed.
 
 (* a function that ignores the qubits of qs takes the same value on assignments that agree elsewhere *)
@@ -120,24 +185,6 @@ Proof.
     apply (IH Hr). intros p Hp. destruct (Nat.eq_dec p a) as [->|Hpa].
     + now rewrite get_upd_same.
     + rewrite get_upd_other by auto. apply H. intros [E|I]; [congruence|auto].
-Qed.
-
-(* ---------- zero indicators ---------- *)
-Definition Zq (qs : list nat) (x : asg) : C := if forallb (fun q => negb (get x q)) qs then RtoC 1 else RtoC 0.
-Lemma Zq_nil x : Zq [] x = RtoC 1. Proof. reflexivity. Qed.
-Lemma Zq_cons q qs x : Zq (q :: qs) x = (Zq [q] x * Zq qs x)%C.
-Proof. unfold Zq. simpl. destruct (get x q); simpl; [|destruct (forallb _ qs)]; ring. Qed.
-Lemma Zq_app l1 l2 x : Zq (l1 ++ l2) x = (Zq l1 x * Zq l2 x)%C.
-Proof.
-  unfold Zq. rewrite forallb_app. destruct (forallb _ l1); destruct (forallb _ l2); simpl; ring.
-Qed.
-Lemma Zq_indep qs p : ~ In p qs -> indepq p (Zq qs).
-Proof.
-  intros Hp b v. unfold Zq.
-  assert (E : forallb (fun q => negb (get (upd b p v) q)) qs = forallb (fun q => negb (get b q)) qs).
-  { induction qs as [|a r IH]; auto. simpl. rewrite get_upd_other by (intro E; apply Hp; left; auto).
-    f_equal. apply IH. intro I. apply Hp. now right. }
-  now rewrite E.
 Qed.
 
 (* ---------- rotations on a fresh qubit ---------- *)
@@ -205,13 +252,84 @@ Proof.
   destruct Hl as [->|Hl]. apply H2. apply in_or_app. now right. eauto.
 Qed.
 
-(* ---------- frame lemma: the circuit of t, run on |0> of its qubits times anything else, yields F t times that ---------- *)
-Theorem bottom_up_frame : forall t (beta : state), NoDup (qubits t) -> indeps (qubits t) beta ->
-  drun (bottom_up t) (fun b => (Zq (qubits t) b * beta b)%C) = fun b => (F t b * beta b)%C.
+(* ---------- local circuits act on their factor only ---------- *)
+Lemma cswapq_agree (beta : state) qs c a b x : In a qs -> In b qs -> indeps qs beta -> beta (cswapq c a b x) = beta x.
 Proof.
-  induction t as [|q ay az l IHl r IHr]; intros beta Hn Hb.
+  intros Ha Hb Hi. apply (indeps_agree qs beta Hi). intros p Hp.
+  apply cswapq_get_other; intros ->; auto.
+Qed.
+Lemma dapp_frame g qs (al beta : state) : glocal qs g -> indeps qs beta ->
+  dapp g (fun b => (al b * beta b)%C) = fun b => (dapp g al b * beta b)%C.
+Proof.
+  intros Hl Hb. apply functional_extensionality; intros x.
+  destruct g as [th q|th q|c a b'|e c t]; cbn [dapp].
+  - assert (Bq : indepq q beta) by (apply Hb, Hl; simpl; auto). unfold app1. rewrite !Bq. ring.
+  - assert (Bq : indepq q beta) by (apply Hb, Hl; simpl; auto). unfold app1. rewrite !Bq. ring.
+  - rewrite (cswapq_agree beta qs); auto; apply Hl; simpl; auto.
+  - assert (Bt : indepq t beta) by (apply Hb, Hl; simpl; auto). destruct (get x c); auto. unfold app1. rewrite !Bt. ring.
+Qed.
+Lemma drun_frame c qs : Forall (glocal qs) c -> forall (al beta : state), indeps qs beta ->
+  drun c (fun b => (al b * beta b)%C) = fun b => (drun c al b * beta b)%C.
+Proof.
+  induction c as [|g c IH]; intros W al beta Hb. reflexivity.
+  inversion W; subst. cbn [drun fold_left]. change (fold_left (fun s g => dapp g s) ?l ?s) with (drun l s).
+  rewrite (dapp_frame g qs) by auto. now apply IH.
+Qed.
+
+(* ---------- the state after the sub-circuits, before the bottom-up part ---------- *)
+Fixpoint pre (t : atree) (x : asg) : C :=
+  match t with
+  | ALeaf => RtoC 1
+  | ANode q _ _ l r => (Zq [q] x * pre l x * pre r x)%C
+  | ASub qs c => drun c (Zq qs) x
+  end.
+Lemma pre_indep t : wfsub t -> forall p, ~ In p (qubits t) -> indepq p (pre t).
+Proof.
+  induction t as [|q ay az l IHl r IHr|qs c]; intros W p Hp b v. reflexivity.
+  - destruct W as [Wl Wr]. cbn [qubits] in Hp. cbn [pre].
+    rewrite (Zq_indep [q] p) by (intros [E|[]]; apply Hp; left; auto).
+    rewrite (IHl Wl p), (IHr Wr p); auto; intro I; apply Hp; right; apply in_or_app; [now right | now left].
+  - exact (F_indep (ASub qs c) W p Hp b v).
+Qed.
+
+Theorem subs_frame : forall t (beta : state), wfsub t -> NoDup (qubits t) -> indeps (qubits t) beta ->
+  drun (subs t) (fun b => (Zq (qubits t) b * beta b)%C) = fun b => (pre t b * beta b)%C.
+Proof.
+  induction t as [|q ay az l IHl r IHr|qs c]; intros beta W Hn Hb.
   - simpl. apply functional_extensionality; intros b. rewrite Zq_nil. reflexivity.
-  - cbn [qubits] in Hn, Hb. cbn [bottom_up qubits].
+  - destruct W as [Wl Wr]. cbn [qubits] in Hn, Hb. cbn [subs qubits pre].
+    inversion Hn as [|? ? Hq Hlr]; subst.
+    assert (Nl : NoDup (qubits l)) by (eapply nd_app_l; eauto).
+    assert (Nr : NoDup (qubits r)) by (eapply nd_app_r; eauto).
+    assert (Hql : ~ In q (qubits l)) by (intro I; apply Hq; apply in_or_app; now left).
+    assert (Hqr : ~ In q (qubits r)) by (intro I; apply Hq; apply in_or_app; now right).
+    assert (Dlr : forall p, In p (qubits l) -> In p (qubits r) -> False) by (intros p; apply nd_app_disj; auto).
+    assert (Bl : indeps (qubits l) beta) by (intros p Hp; apply Hb; right; apply in_or_app; now left).
+    assert (Br : indeps (qubits r) beta) by (intros p Hp; apply Hb; right; apply in_or_app; now right).
+    rewrite drun_app.
+    assert (S1 : (fun b => (Zq (q :: qubits l ++ qubits r) b * beta b)%C)
+                 = (fun b => (Zq (qubits l) b * (Zq [q] b * Zq (qubits r) b * beta b))%C)).
+    { apply functional_extensionality; intros b. rewrite Zq_cons, Zq_app. ring. }
+    rewrite S1, (IHl _ Wl Nl).
+    2:{ intros p Hp b v. rewrite (Zq_indep [q] p) by (intros [E|[]]; subst; auto).
+        rewrite (Zq_indep (qubits r) p) by (intro I; eapply Dlr; eauto). now rewrite (Bl p Hp). }
+    assert (S2 : (fun b => (pre l b * (Zq [q] b * Zq (qubits r) b * beta b))%C)
+                 = (fun b => (Zq (qubits r) b * (Zq [q] b * pre l b * beta b))%C)).
+    { apply functional_extensionality; intros b. ring. }
+    rewrite S2, (IHr _ Wr Nr).
+    2:{ intros p Hp b v. rewrite (Zq_indep [q] p) by (intros [E|[]]; subst; auto).
+        rewrite (pre_indep l Wl p) by (intro I; eapply Dlr; eauto). now rewrite (Br p Hp). }
+    apply functional_extensionality; intros b. ring.
+  - cbn [subs qubits pre] in *. now apply (drun_frame c qs).
+Qed.
+
+(* ---------- frame lemma for the bottom-up part ---------- *)
+Theorem bottom_up_frame : forall t (beta : state), wfsub t -> NoDup (qubits t) -> indeps (qubits t) beta ->
+  drun (bottom_up t) (fun b => (pre t b * beta b)%C) = fun b => (F t b * beta b)%C.
+Proof.
+  induction t as [|q ay az l IHl r IHr|qs c]; intros beta W Hn Hb.
+  - reflexivity.
+  - destruct W as [Wl Wr]. cbn [qubits] in Hn, Hb. cbn [bottom_up qubits pre].
     inversion Hn as [|? ? Hq Hlr]; subst.
     assert (Nl : NoDup (qubits l)) by (eapply nd_app_l; eauto).
     assert (Nr : NoDup (qubits r)) by (eapply nd_app_r; eauto).
@@ -223,27 +341,27 @@ Proof.
     assert (Br : indeps (qubits r) beta) by (intros p Hp; apply Hb; right; apply in_or_app; now right).
     rewrite app_assoc, drun_app.
     (* rotations *)
-    assert (S0 : (fun b => (Zq (q :: qubits l ++ qubits r) b * beta b)%C)
-                 = (fun b => (Zq [q] b * (Zq (qubits l) b * Zq (qubits r) b * beta b))%C)).
-    { apply functional_extensionality; intros b. rewrite Zq_cons, Zq_app. ring. }
+    assert (S0 : (fun b => (Zq [q] b * pre l b * pre r b * beta b)%C)
+                 = (fun b => (Zq [q] b * (pre l b * pre r b * beta b))%C)).
+    { apply functional_extensionality; intros b. ring. }
     rewrite S0, rot_prep.
-    2:{ intros b v. rewrite (Zq_indep (qubits l) q Hql), (Zq_indep (qubits r) q Hqr), Bq. reflexivity. }
+    2:{ intros b v. rewrite (pre_indep l Wl q Hql), (pre_indep r Wr q Hqr), Bq. reflexivity. }
     (* left subtree *)
     rewrite drun_app.
-    assert (S1 : (fun b => (phi ay az (get b q) * (Zq (qubits l) b * Zq (qubits r) b * beta b))%C)
-                 = (fun b => (Zq (qubits l) b * (phi ay az (get b q) * Zq (qubits r) b * beta b))%C)).
+    assert (S1 : (fun b => (phi ay az (get b q) * (pre l b * pre r b * beta b))%C)
+                 = (fun b => (pre l b * (phi ay az (get b q) * pre r b * beta b))%C)).
     { apply functional_extensionality; intros b. ring. }
-    rewrite S1, (IHl _ Nl).
+    rewrite S1, (IHl _ Wl Nl).
     2:{ intros p Hp b v. rewrite get_upd_other by (intro E; subst; auto).
-        rewrite (Zq_indep (qubits r) p) by (intro I; eapply Dlr; eauto). now rewrite (Bl p Hp). }
+        rewrite (pre_indep r Wr p) by (intro I; eapply Dlr; eauto). now rewrite (Bl p Hp). }
     (* right subtree *)
     rewrite drun_app.
-    assert (S2 : (fun b => (F l b * (phi ay az (get b q) * Zq (qubits r) b * beta b))%C)
-                 = (fun b => (Zq (qubits r) b * (phi ay az (get b q) * F l b * beta b))%C)).
+    assert (S2 : (fun b => (F l b * (phi ay az (get b q) * pre r b * beta b))%C)
+                 = (fun b => (pre r b * (phi ay az (get b q) * F l b * beta b))%C)).
     { apply functional_extensionality; intros b. ring. }
-    rewrite S2, (IHr _ Nr).
+    rewrite S2, (IHr _ Wr Nr).
     2:{ intros p Hp b v. rewrite get_upd_other by (intro E; subst; auto).
-        rewrite (F_indep l p) by (intro I; eapply Dlr; eauto). now rewrite (Br p Hp). }
+        rewrite (F_indep l Wl p) by (intro I; eapply Dlr; eauto). now rewrite (Br p Hp). }
     (* controlled swaps *)
     apply functional_extensionality; intros x. cbn [F].
     assert (Hsig : forall p, ~ In p (q :: qubits l ++ qubits r) -> get (sig q ay l r x) p = get x p).
@@ -257,4 +375,11 @@ Proof.
       destruct (get x q) eqn:G.
       * rewrite Hbeta. ring.
       * rewrite G. ring.
+  - reflexivity.
+Qed.
+
+Theorem bdsp_frame t (beta : state) : wfsub t -> NoDup (qubits t) -> indeps (qubits t) beta ->
+  drun (bdsp_gates t) (fun b => (Zq (qubits t) b * beta b)%C) = fun b => (F t b * beta b)%C.
+Proof.
+  intros W Hn Hb. unfold bdsp_gates. rewrite drun_app, subs_frame by auto. now apply bottom_up_frame.
 Qed.
